@@ -170,3 +170,252 @@ Proof.
     split; [reflexivity|]. split; [reflexivity|]. split; [exact ST1|].
     split; [intros a I; apply WP; rewrite <- K1; exact I|exact WQ].
 Qed.
+
+(** * The sizers never fail on quoted assets and acceptable weights *)
+Lemma size_all_ok f price (l : weights) :
+  (forall a, In a (map fst l) -> exists p, price a = Some p) ->
+  exists t, size_all f price l = Ok t /\ map fst t = map fst l.
+Proof.
+  induction l as [|[a x] r IH]; intro H; cbn [size_all].
+  - exists []. split; reflexivity.
+  - destruct (H a (or_introl eq_refl)) as [p P]. rewrite P.
+    destruct IH as (t & T & K); [intros b I; apply H; right; exact I|].
+    rewrite T. eexists. split; [reflexivity|]. cbn [map fst]. rewrite K. reflexivity.
+Qed.
+
+Lemma w_find_some_in a x (w : weights) : w_find a w = Some x -> In (a, x) w.
+Proof.
+  induction w as [|[b y] r IH]; cbn [w_find]; [discriminate|].
+  destruct (String.eqb a b) eqn:E; intro H.
+  - apply String.eqb_eq in E. inversion H; subst. left; reflexivity.
+  - right. apply IH. exact H.
+Qed.
+
+Lemma sort_keys_perm {A} (l : list (string * A)) : Permutation (map fst (sort_by_key l)) (map fst l).
+Proof. apply Permutation_map. apply sort_perm. Qed.
+
+Lemma orders_keys target cur a : In a (map fst (rebalance_orders target cur)) -> In a (map fst target).
+Proof.
+  intro I. apply in_map_iff in I. destruct I as ([b q] & E & I). simpl in E. subst b.
+  unfold rebalance_orders in I. apply filter_In in I. destruct I as [I _].
+  apply (Permutation_in _ (sort_perm _)) in I. apply in_map_iff in I. destruct I as ([c z] & E & I).
+  inversion E; subst. apply in_map_iff. exists (a, z). split; [reflexivity|exact I].
+Qed.
+
+Section Sizer.
+  Variable cfg : config.
+  Variable w : weights.
+  Variable u : list string.
+  Hypothesis NDW : NoDup (map fst w).
+  Hypothesis NONNEG : c_long_only cfg = true -> Forall (fun aw => (0 <= snd aw)%Q) w.
+
+  Lemma wt_nonneg a : c_long_only cfg = true -> (0 <= wt w a)%Q.
+  Proof.
+    intro LO. unfold wt. destruct (w_find a w) as [x|] eqn:F; [|lra].
+    apply w_find_some_in in F. pose proof (NONNEG LO) as NN. rewrite Forall_forall in NN. apply (NN (a, x) F).
+  Qed.
+
+  Lemma sizer_ok snap b A :
+    (forall a, In a (map fst (held_of b)) -> In a A) -> (forall a, In a u -> In a A) -> (forall a, In a (map fst w) -> In a A) ->
+    quoted A snap ->
+    exists target,
+      sizer_of cfg b snap (merge_weights (map (fun a => (a, 0%Q)) (full_assets (map fst (held_of b)) u)) w) = Ok target /\
+      (forall a, In a (map fst target) -> In a A).
+  Proof.
+    intros HH HU HW QU.
+    destruct (merged_weights_repr (map fst (held_of b)) u w NDW) as (NDK & REPR & KEYS).
+    set (fw := merge_weights (map (fun a => (a, 0%Q)) (full_assets (map fst (held_of b)) u)) w) in *.
+    assert (KA : forall a, In a (map fst fw) -> In a A).
+    { intros a I. apply KEYS in I. destruct I as [I|[I|I]]; auto. }
+    assert (PRICES : forall l : weights, (forall a, In a (map fst l) -> In a (map fst fw)) ->
+                     forall a, In a (map fst l) -> exists p, (fun a0 => snap_find a0 snap) a = Some p).
+    { intros l SUB a I. destruct (QU a (KA a (SUB a I))) as (p & P & _). exists p. exact P. }
+    assert (WN := wt_nonneg). unfold sizer_of. destruct (c_long_only cfg) eqn:LO.
+    - unfold lo_size. destruct fw as [|x0 r0] eqn:EF; [exists []; split; [reflexivity|intros a []]|]. rewrite <- EF in *.
+      unfold lo_normalise.
+      assert (NEG : existsb (fun aw => qltb (snd aw) 0) fw = false).
+      { rewrite REPR. rewrite existsb_map. cbn [snd].
+        destruct (existsb (fun x => qltb (wt w x) 0) (map fst fw)) eqn:E; [|reflexivity].
+        apply existsb_exists in E. destruct E as (a & _ & Q). apply qltb_lt in Q.
+        assert (N := WN a eq_refl). lra. }
+      rewrite NEG.
+      assert (G : forall nw : weights, map fst nw = map fst fw ->
+                  exists target, size_all (lo_qty (equity_of b * (1 - c_param cfg)) (c_fee cfg)) (fun a => snap_find a snap) (sort_by_key nw) = Ok target /\
+                                 (forall a, In a (map fst target) -> In a A)).
+      { intros nw K. destruct (size_all_ok (lo_qty (equity_of b * (1 - c_param cfg)) (c_fee cfg)) (fun a => snap_find a snap) (sort_by_key nw))
+          as (t & T & TK).
+        - apply PRICES. intros a I. apply (Permutation_in _ (sort_keys_perm nw)) in I. rewrite K in I. exact I.
+        - exists t. split; [exact T|]. intros a I. rewrite TK in I. apply (Permutation_in _ (sort_keys_perm nw)) in I.
+          rewrite K in I. apply KA. exact I. }
+      destruct (isclose0 (qsum (map snd fw))); apply G; [reflexivity|]. rewrite map_map. reflexivity.
+    - unfold ls_size. destruct fw as [|x0 r0] eqn:EF; [exists []; split; [reflexivity|intros a []]|]. rewrite <- EF in *.
+      assert (K : map fst (ls_normalise (c_param cfg) fw) = map fst fw).
+      { unfold ls_normalise. destruct (isclose0 _); [reflexivity|]. rewrite map_map. reflexivity. }
+      destruct (size_all_ok (ls_qty (equity_of b) (c_fee cfg)) (fun a => snap_find a snap) (sort_by_key (ls_normalise (c_param cfg) fw)))
+        as (t & T & TK).
+      + apply PRICES. intros a I. apply (Permutation_in _ (sort_keys_perm _)) in I. rewrite K in I. exact I.
+      + exists t. split; [exact T|]. intros a I. rewrite TK in I. apply (Permutation_in _ (sort_keys_perm _)) in I.
+        rewrite K in I. apply KA. exact I.
+  Qed.
+End Sizer.
+
+(** * Submitting orders for quoted assets never fails *)
+Lemma submit_each_ok snap A t : quoted A snap -> forall os b,
+  Good A t b -> (forall o, In o os -> In (fst o) A) ->
+  exists b' ef, submit_each snap b t os = (b', ef, None) /\ Good A t b'.
+Proof.
+  intros QU. induction os as [|[a q] r IH]; intros b G IA; cbn [submit_each].
+  - exists b, []. split; [reflexivity|exact G].
+  - destruct G as (pf & q0 & HA & ST & [WP WQ]).
+    cbn [step]. rewrite HA. cbn [acct_find]. change (String.eqb pid pid) with true. cbv iota.
+    cbn [a_pf a_q acct_set]. change (String.eqb pid pid) with true. cbv iota.
+    set (b1 := mkBr (b_dt b) (b_base b) (b_cash b) (b_fee b) [(pid, mkAcct pf (q0 ++ [mkOrd (b_next b) a q]))] (b_next b + 1)).
+    assert (G1 : Good A t b1).
+    { exists pf, (q0 ++ [mkOrd (b_next b) a q]). split; [reflexivity|]. split; [exact ST|]. split; [exact WP|].
+      intros o I. apply in_app_iff in I. destruct I as [I|[I|[]]]; [apply WQ; exact I|]. subst o. cbn [o_asset].
+      apply (IA (a, q)). left; reflexivity. }
+    destruct (update_ok snap A t b1 t G1 (Z.le_refl t) QU) as (b2 & ef & X & D2 & pf1 & q1 & pf2 & HA1 & HA2 & ST2 & WI2).
+    rewrite X.
+    assert (G2 : Good A t b2) by (eexists; eexists; split; [exact HA2|]; split; assumption).
+    destruct (IH b2 G2 (fun o I => IA o (or_intror I))) as (b3 & ef3 & X3 & G3).
+    rewrite X3. exists b3, (ef ++ ef3). split; [reflexivity|exact G3].
+Qed.
+
+(** * An event never fails; the whole run carries no error *)
+Section Run.
+  Variable cfg : config.
+  Variable w : weights.
+  Variable u : list string.
+  Variable sched : list Z.
+  Hypothesis ALPHA : c_alpha cfg = AFixed w.
+  Hypothesis UNIV : c_univ cfg = StaticU u.
+  Hypothesis LB : c_lookbacks cfg = None.
+  Hypothesis NDW : NoDup (map fst w).
+  Hypothesis NONNEG : c_long_only cfg = true -> Forall (fun aw => (0 <= snd aw)%Q) w.
+
+  Let A := (u ++ map fst w)%list.
+
+  Lemma event_step_ok s T t k snap :
+    Good A T (ss_broker s) -> T <= t -> quoted A snap ->
+    exists s' outs, event_step cfg sched s t k snap = (s', outs, None) /\ Good A t (ss_broker s').
+  Proof.
+    intros G LE QU. unfold event_step. cbn [step].
+    destruct (update_ok snap A T (ss_broker s) t G LE QU) as (b1 & ef & X & D1 & pf0 & q0 & pf1 & HA0 & HA1 & ST1 & WI1).
+    rewrite X.
+    assert (G1 : Good A t b1) by (eexists; eexists; split; [exact HA1|]; split; assumption).
+    assert (SIG : (match k with MarketClose => signals_update cfg (ss_sig s) t snap | _ => Ok (ss_sig s) end) = Ok (ss_sig s)).
+    { destruct k; try reflexivity. unfold signals_update. rewrite LB. reflexivity. }
+    rewrite SIG. cbv beta zeta iota.
+    destruct (burn_ok cfg t && existsb (Z.eqb t) sched).
+    - unfold alpha_eval. rewrite ALPHA, UNIV. cbn [universe_assets].
+      assert (HH : forall a, In a (map fst (held_of b1)) -> In a A).
+      { intros a I. unfold held_of in I. rewrite HA1 in I. cbn [acct_find] in I. change (String.eqb pid pid) with true in I.
+        cbv iota in I. cbn [a_pf] in I. rewrite map_map in I. cbn [fst] in I. apply WI1. exact I. }
+      destruct (sizer_ok cfg w u NDW NONNEG snap b1 A HH) as (target & SZ & TK).
+      { intros a I. unfold A. apply in_app_iff. left; exact I. }
+      { intros a I. unfold A. apply in_app_iff. right; exact I. }
+      { exact QU. }
+      rewrite SZ.
+      destruct (submit_each_ok snap A t QU (rebalance_orders target (held_of b1)) b1 G1) as (b2 & ef2 & X2 & G2).
+      { intros o I. apply TK. apply (orders_keys target (held_of b1)). apply in_map. exact I. }
+      rewrite X2. eexists. eexists. split; [reflexivity|exact G2].
+    - eexists. eexists. split; [reflexivity|exact G1].
+  Qed.
+End Run.
+
+Lemma init_good cfg s evs sched A :
+  session_init cfg = Ok (s, evs, sched) ->
+  Good A (c_start cfg) (ss_broker s) /\
+  evs = flat_map (day_events false false) (bdays (c_start cfg) (c_end cfg)).
+Proof.
+  unfold session_init, broker_init.
+  change (negb (existsb (String.eqb "USD") currencies)) with false. cbv iota.
+  destruct (qltb (c_cash cfg) 0) eqn:NEG; [discriminate|].
+  cbn -[qltb qadd qsub Z.ltb String.eqb pid sim_events schedule_of lo_check_buffer ls_check_leverage sig_init].
+  change (String.eqb pid pid) with true. cbv iota.
+  rewrite NEG.
+  cbn -[qltb qadd qsub Z.ltb String.eqb pid sim_events schedule_of lo_check_buffer ls_check_leverage sig_init].
+  destruct (qltb (c_cash cfg) (c_cash cfg)) eqn:OD; [discriminate|].
+  unfold pf_subscribe, pf_init.
+  cbn -[qltb qadd qsub Z.ltb String.eqb pid sim_events schedule_of lo_check_buffer ls_check_leverage sig_init].
+  rewrite Z.ltb_irrefl, NEG.
+  cbn -[qltb qadd qsub Z.ltb String.eqb pid sim_events schedule_of lo_check_buffer ls_check_leverage sig_init].
+  change (String.eqb pid pid) with true. cbv iota.
+  unfold sim_events. destruct (c_end cfg <? c_start cfg); [discriminate|].
+  destruct (schedule_of cfg) as [sc|e]; [|discriminate].
+  destruct (if c_long_only cfg then lo_check_buffer (c_param cfg) else ls_check_leverage (c_param cfg)); [|discriminate].
+  intro X; inversion X; subst; clear X. split; [|reflexivity].
+  eexists. exists []. cbn [ss_broker b_accts set_cash set_accts]. split; [reflexivity|].
+  split; [split; [cbn; lia|constructor]|]. split; [intros x0 []|intros o0 []].
+Qed.
+
+Section Whole.
+  Variable cfg : config.
+  Variable w : weights.
+  Variable u : list string.
+  Hypothesis ALPHA : c_alpha cfg = AFixed w.
+  Hypothesis UNIV : c_univ cfg = StaticU u.
+  Hypothesis LB : c_lookbacks cfg = None.
+  Hypothesis NDW : NoDup (map fst w).
+  Hypothesis NONNEG : c_long_only cfg = true -> Forall (fun aw => (0 <= snd aw)%Q) w.
+
+  Lemma run_from_noerr sched market : forall evs s T,
+    Good (u ++ map fst w) T (ss_broker s) ->
+    StronglySorted Z.lt (map fst evs) -> Forall (fun e => T <= fst e) evs ->
+    (forall e, In e evs -> quoted (u ++ map fst w) (market (fst e))) ->
+    tr_noerr (run_from cfg sched market s evs).
+  Proof.
+    induction evs as [|[t k] r IH]; intros s T G SS GE QU; cbn [run_from]; [constructor|].
+    inversion GE as [|? ? Ht Hr]; subst. cbn [fst] in Ht.
+    cbn [map fst] in SS. inversion SS as [|? ? SS' F]; subst.
+    destruct (event_step_ok cfg w u sched ALPHA UNIV LB NDW NONNEG s T t k (market t) G Ht (QU (t, k) (or_introl eq_refl)))
+      as (s' & outs & X & G').
+    rewrite X. apply noerr_app. split.
+    - destruct (event_step_shape _ _ _ _ _ _ _ _ X) as (_ & _ & NE). unfold tr_noerr. rewrite Forall_map. cbn [snd]. exact NE.
+    - apply (IH s' t G' SS').
+      + apply Forall_forall. intros e I. rewrite Forall_forall in F. assert (L : t < fst e) by (apply F; apply in_map; exact I). lia.
+      + intros e I. apply QU. right; exact I.
+  Qed.
+
+  Theorem session_never_raises market tr :
+    tod (c_start cfg) <= 52200 ->
+    (forall t k, In (t, k) (flat_map (day_events false false) (bdays (c_start cfg) (c_end cfg))) ->
+                 quoted (u ++ map fst w) (market t)) ->
+    run cfg market = Ok tr -> tr_noerr tr.
+  Proof.
+    intros TOD QU. unfold run. destruct (session_init cfg) as [[[s0 evs] sched]|e] eqn:SI; [|discriminate].
+    intro X; inversion X; subst tr; clear X.
+    destruct (init_good cfg s0 evs sched (u ++ map fst w) SI) as [G EVS]. subst evs.
+    apply (run_from_noerr sched market _ s0 (c_start cfg) G).
+    - apply flat_events_sorted. apply bdays_sorted.
+    - apply Forall_forall. intros [t k] I. cbn [fst]. apply in_events in I. destruct I as (d & ID & H).
+      apply in_bdays in ID. destruct ID as ([D0 _] & _ & _).
+      assert (S0 : c_start cfg = day (c_start cfg) * 86400 + tod (c_start cfg)).
+      { unfold day, tod. rewrite Z.mul_comm. apply Z.div_mod. lia. }
+      destruct H as [(P & _)|[(E & _)|[(E & _)|(P & _)]]]; try discriminate; subst t; lia.
+    - intros [t k] I. apply (QU t k). exact I.
+  Qed.
+End Whole.
+
+(** * Refinement without the no-error premise *)
+Theorem backtest_refines_spec_quoted cfg w u market tr :
+  c_alpha cfg = AFixed w -> c_univ cfg = StaticU u -> c_lookbacks cfg = None -> NoDup (map fst w) ->
+  (c_long_only cfg = true -> Forall (fun aw => (0 <= snd aw)%Q) w) ->
+  tod (c_start cfg) <= 52200 ->
+  (forall t k, In (t, k) (flat_map (day_events false false) (bdays (c_start cfg) (c_end cfg))) ->
+               quoted (u ++ map fst w) (market t)) ->
+  run cfg market = Ok tr ->
+  tr_noerr tr /\
+  exists sched s_end st days,
+    schedule_of cfg = Ok sched /\ end_state cfg market = Some s_end /\
+    spec_run (spec_of cfg w u sched) market = Some (st, days) /\
+    tr_fills tr = spec_fills days /\
+    Forall2 same_equity (tr_equity tr) (spec_equity days) /\
+    (cash_of pid (ss_broker s_end) == st_cash st)%Q /\
+    held_of (ss_broker s_end) = st_hold st /\
+    pending_of (ss_broker s_end) = st_pending st.
+Proof.
+  intros ALPHA UNIV LB NDW NONNEG TOD QU RUN.
+  assert (NE : tr_noerr tr) by (eapply session_never_raises; eauto).
+  split; [exact NE|]. eapply backtest_refines_spec; eauto.
+Qed.
